@@ -220,7 +220,10 @@ def _kani_unit(unit, tier, seed, pid=None):
                     res.bounded.append("%s: %s" % (oname, h["bounded"]))
         # counterexamples for refuted obligations
         bad = [o for o in res.obls if o.status == "fail"] + []
-        bad_f = [f for f in res.findings if f["present"] and f.get("harness")]
+        # a LISTED known finding needs no fresh counterexample on every quick run (its failing history is in known_findings.json);
+        # unlisted findings and the thorough tier still get one
+        listed_ids = set(f["id"] for f in known_findings().get("findings", []))
+        bad_f = [f for f in res.findings if f["present"] and f.get("harness") and (tier == "thorough" or f["id"] not in listed_ids)]
         names = [o.harness for o in bad][:3] + [f["harness"] for f in bad_f][:3]
         if names and not os.environ.get("VX_NO_PLAYBACK"):
             _, _, out, _ = R.run_kani(unit["name"], crate_dir, names, timeout=1500, jobs=4, extra=unit.get("kani_args", []), playback=True)
@@ -288,6 +291,21 @@ def _missing_helpers(crate_dir, unit):
                 continue
             if "fn " + n not in have:
                 found.append({"file": f, "path": "fn " + n})
+            break
+    # new helper METHODS / associated functions of a type whose impl items are already under extraction
+    meths = set(re.findall(r"no method named `([A-Za-z_0-9]+)` found for (?:reference|mutable reference|struct|enum) `&?(?:mut )?([A-Za-z_0-9]+)", p.stderr))
+    meths |= set(re.findall(r"no function or associated item named `([A-Za-z_0-9]+)` found for (?:struct|enum) `([A-Za-z_0-9]+)", p.stderr))
+    for n, ty in sorted(meths):
+        path = "impl %s/fn %s" % (ty, n)
+        if path in have:
+            continue
+        for f in sorted(set(it["file"] for it in unit["items"] if it["path"].startswith("impl %s/" % ty))):
+            try:
+                src, m = B.read_repo(f)
+                rc.find(src, path, m)
+            except rc.LostAnchor:
+                continue
+            found.append({"file": f, "path": path})
             break
     return found
 
